@@ -546,6 +546,32 @@ def build():
     p.models["builtin:hash"] = lambda i, a, k: Opaque("hashof", None, of=a[0]) if not isinstance(a[0], (int, str, bytes, tuple)) else hash(a[0])
     p.spec_funcs["hash_of"] = lambda interp, o: o
     p.spec_funcs["any_is"] = lambda interp, tup, x: isinstance(tup, tuple) and any(e is x or (isinstance(e, Opaque) and e.tag == "hashof" and e.attrs.get("of") is x) for e in tup)
+    # ---- structural (C06): "every call that the plain function accepts is accepted by the cached wrapper".  An entry point that forwards
+    # *args / **kwargs to the user's function must not steal a keyword: its own named parameters have to be positional-only.
+    def wrappers_accept_every_keyword(pack):
+        import ast as _ast
+        from pyvc.contracts import SourceModule
+        mod = SourceModule.get(MEM)
+        out = []
+        for cls in mod.tree.body:
+            if not (isinstance(cls, _ast.ClassDef) and cls.name in ("MemorizedFunc", "NotMemorizedFunc", "AsyncMemorizedFunc", "AsyncNotMemorizedFunc")):
+                continue
+            for fn in cls.body:
+                if not isinstance(fn, (_ast.FunctionDef, _ast.AsyncFunctionDef)) or fn.name.startswith("_") and fn.name != "__call__":
+                    continue
+                a = fn.args
+                if a.vararg is None or a.kwarg is None:
+                    continue
+                named = [x.arg for x in a.args + a.kwonlyargs]
+                out.append(("%s.%s/forwards-every-keyword" % (cls.name, fn.name), not named,
+                            "parameters %r of %s.%s(*%s, **%s) can be hit by a keyword meant for the cached function (e.g. f(self=...)): they must be positional-only"
+                            % (named, cls.name, fn.name, a.vararg.arg, a.kwarg.arg)))
+        if not out:
+            out.append(("wrappers/forwarding-entry-points-found", False, "no forwarding entry point found in joblib/memory.py (anchor lost)"))
+        return out
+
+    wrappers_accept_every_keyword.props = ["C06"]
+    p.structural = [wrappers_accept_every_keyword]
     p.spec_funcs["dumped_key"] = lambda interp: key_of([e for e in interp.ctx.events if e[0] == "dump_item"][0][1])
     p.spec_funcs["same"] = lambda interp, a, b: a is b or (isinstance(a, tuple) and isinstance(b, tuple) and all(x is y or ops.identical(x, y) is True for x, y in zip(a, b)))
     return p
